@@ -61,6 +61,20 @@ def check_req_id(c):
     t = RequestId.from_pus_tc(tc)
     eq(devs, "from_pus_tc.pack", bytes(t.pack()), bytes(tc.pack()[:4]))
     eq(devs, "from_pus_tc.as_u32", t.as_u32(), int.from_bytes(tc.pack()[:4], "big"))
+    # telecommands that carry exactly these 32 bits (any version, type, flags): decoded from octets, and adopted from a header
+    from ..ref.crc import crc_bytes as _crc
+
+    if p["shf"]:
+        body = raw + (7).to_bytes(2, "big") + bytes([0x2F, 17, 1, 0, 0]) + b"\xab"
+        tc_raw = body + _crc(body)
+        for tag, tc2 in (("unpacked_tc", PusTc.unpack(tc_raw)), ("tc_from_sp_header", PusTc.from_sp_header(sp.SpacePacketHeader.unpack(raw + b"\x00\x00"), service=17, subservice=1, app_data=b"\xab"))):
+            if tag == "tc_from_sp_header" and not p["ptype"]:
+                continue  # from_sp_header documents that it forces the TC type bit
+            t2 = RequestId.from_pus_tc(tc2)
+            eq(devs, f"from_pus_tc.{tag}.pack", bytes(t2.pack()), bytes(tc2.pack()[:4]))
+            eq(devs, f"from_pus_tc.{tag}.as_u32", t2.as_u32(), int.from_bytes(bytes(tc2.pack()[:4]), "big"))
+            true(devs, f"from_pus_tc.{tag}.eq_from_sp_header", t2 == RequestId.from_sp_header(tc2.sp_header) and hash(t2) == hash(RequestId.from_sp_header(tc2.sp_header)),
+                 "from_pus_tc and from_sp_header disagree for the same telecommand")
     return devs
 
 
